@@ -3,7 +3,8 @@ expression argument wrapped in parentheses so that its value is what the caller 
 import random
 
 REGS = ['r16', 'r17', 'r20', 'R31']
-EXPRS = ['5', '1+2', '(1+2)*3', '2*3+1', '10-4-3', '1<<3|1', '0x10 & 0x1f', '-(3)', '~0 & 7', '100/7%5', 'CONST+1', '(CONST<<1)+1', 'low(0x1234)', '2 > 1']
+EXPRS = ['5', '1+2', '(1+2)*3', '2*3+1', '10-4-3', '1<<3|1', '0x10 & 0x1f', '-(3)', '~0 & 7', '100/7%5', 'CONST+1', '(CONST<<1)+1', 'low(0x1234)', '2 > 1',
+         '100/(2*5)', '7-(2*3)', '2*(3+4)', '~(2*3) & 15', '!(0*5)', '64>>(1+1)', '1-(2-3)', '8/(4/2)', '(1|2)&3', '1<<(1<<1)', '9%(2*2)', '-(2+3)+10']
 IDX = ['Y+3', 'Z+10', 'Y+0']
 
 BODIES = [
@@ -14,6 +15,8 @@ BODIES = [
     (['expr', 'expr'], [' .dw @0 * @1, @0 - @1']),
     (['reg', 'expr'], [' INNER @0, @1 + 1', ' subi @0, @1']),
     (['expr'], [' .dseg', ' .byte 2', ' .cseg', ' .db @0, 1']),
+    (['expr'], [' .db @0, 2', ' .dseg', ' .byte 3', ' .cseg']),
+    (['expr'], [' .eseg', ' .db @0', ' .cseg']),
     ([], [' nop', ' ret']),
 ]
 
@@ -92,4 +95,30 @@ def witnesses(n, seed):
             src_lines = main + calls + defs
         flat = main + expand(calls, macros)
         out.append(('\n'.join(src_lines) + '\n', '\n'.join(flat) + '\n'))
+    return out
+
+
+OPS = ['||', '&&', '|', '^', '&', '==', '!=', '<', '<=', '>', '>=', '<<', '>>', '+', '-', '*', '/', '%']
+
+
+def grouping_witnesses(n, seed):
+    """every ordered operator pair with the parentheses that override the default grouping, passed as a macro argument and
+    multiplied / subtracted inside the body: `m a op1 (b op2 c)` and `m (a op1 b) op2 c`  vs the hand expansion"""
+    rnd = random.Random(seed)
+    cases = []
+    for o1 in OPS:
+        for o2 in OPS:
+            for (a, b, c) in ((7, 3, 2),):
+                cases.append('%d %s (%d %s %d)' % (a, o1, b, o2, c))
+                cases.append('(%d %s %d) %s %d' % (a, o1, b, o2, c))
+    for u in ['-', '~', '!']:
+        for o in OPS:
+            cases.append('%s(5 %s 2)' % (u, o))
+    if n < len(cases):
+        cases = rnd.sample(cases, n)
+    out = []
+    for arg in cases:
+        src = '.macro gm\n .dq 3 * @0 - 1, 100 - @0\n.endm\n gm %s\n' % arg
+        flat = ' .dq 3 * (%s) - 1, 100 - (%s)\n' % (arg, arg)
+        out.append((src, flat))
     return out
